@@ -26,8 +26,9 @@ LEVEL_TEXT = ("c19_delivery_partial: when the number Session::process scans from
               "containing '34=' makes process gate on the wrong number.")
 LEVEL_NOTE = ("Trusted: Coq kernel, extraction, the hand transcription coq/Sess/Session.v of session.cpp (checked by the "
               "correspondence run on every case: the model's trace must equal the real trace byte for byte), the harness "
-              "(vsock/vclock), the stand-in decoder simple_decode on the generated message classes (well-formed, bad "
-              "checksum, missing mandatory field); the theorems hold for ANY decode function.")
+              "(vsock/vclock), the Codec group's model of Message::factory (coq/Codec, plugged into the session model's "
+              "`decode` parameter by coq/C19/CodecDecode.v) as the decoder of the executable model; the theorems hold for "
+              "ANY decode function.")
 DESIGN_REF = "DESIGN.md section 4, C19; findings F24, F25, F26"
 PROPS_FILE = "Props/Properties_C19.v"
 COQ_TARGETS = ["Props/Properties_C19.vo", "Extract/Extract_C19.vo"]
@@ -36,23 +37,28 @@ TRUSTED_BASE = ["Coq 8.16.1 kernel (coqc), vm_compute only",
                 "hand-written session model coq/Sess/*.v (Session.process, enforce, compid_check, sequence_check, dispatch, "
                 "handle_*) tied to runtime/session.cpp by differential execution of whole histories; coq/C19/Run19.v only "
                 "instantiates its decode / fl_process parameters",
-                "Sess.SimpleCodec.simple_decode as the decoder of the executable model (exact on well-formed messages, bad "
-                "checksum, missing mandatory field); the theorems are parametric in the decoder",
-                "ocaml/prelude.ml + ocaml/c19_driver.ml, harness/h_sess.cpp + sess_harness.hpp + vsock.hpp + vclock.cpp, vlib"]
+                "coq/Codec (extract_header, MessageBase::decode, factory: the Codec group's model, tied by C02..C06) as the "
+                "decoder of the executable model, converted by coq/C19/CodecDecode.v (exception texts incl. the "
+                "__FILE__:__LINE__ of the tree under test, taken from the real code by probe runs); the theorems are "
+                "parametric in the decoder; the witnesses of the ..._refuted theorems use Sess.SimpleCodec on a small schema",
+                "ocaml/prelude.ml + ocaml/c19_driver.ml (incl. load_ctx copied from the codec common block), h_codec --meta, "
+                "harness/h_sess.cpp + sess_harness.hpp + vsock.hpp + vclock.cpp, vlib"]
 ASSUMPTIONS = ["the application handles messages in the canonical form `enforce(seqnum,msg) || msg->process(router)` "
                "(what the harness' HSession and every fix8 example do); handle_admin / authenticate overrides are the defaults",
                "no SessionConfig (ignore_logon_sequence_check off), not `reliable`, pm_thread; correctly framed input (C15)",
                "sequence numbers stay below 2^31; timestamps are canonical 21-character UTC timestamps",
-               "corrupt messages are limited to: wrong CheckSum, missing mandatory header/body field, no MsgSeqNum at all"]
+               "corrupt messages are limited to: wrong CheckSum, missing mandatory header/body field, no MsgSeqNum at all, a tag "
+               "twice, unknown message type; no repeating groups, no unknown or misplaced tags (C04/C05), values < 2048 bytes"]
 RULE = ("histories for both roles, file/memory/no persister, enforce_compids on/off, silent_disconnect on/off, receive "
         "number argument: a Logon (in sequence / low / high / PossDup / reset) and then 1..9 inbound probes aimed at the "
         "expected number the generator tracks: equal, lower (PossDup absent / Y / N, OrigSendingTime before / equal / after "
         "SendingTime / absent), higher by 1..3, wrong Sender/TargetCompID, bad checksum, missing mandatory body or header "
-        "field, no '34=' at all, header values that contain '34=<n>' before or after the real field (n = expected, lower, "
+        "field, a tag twice (also a second MsgSeqNum), unknown message type, header/body fields in shuffled order, no '34=' at "
+        "all, header values that contain '34=<n>' before or after the real field (n = expected, lower, "
         "higher), all message types (application D/F/8/j, Heartbeat, TestRequest, ResendRequest, Reject, SequenceReset, "
         "Logout, Logon); the states are reached by the history itself: before logon, logon phase, continuous, "
         "resend_request_sent (after a gap), test_request_sent (after a silent timer period), after a Logout / a fatal "
-        "violation / Session::stop; some operations carry two messages. non-trivial = at least two inbound messages were "
+        "violation / Session::stop / a peer close; some operations carry two messages. non-trivial = at least two inbound messages were "
         "processed and one of them was delivered, answered (Reject/ResendRequest/Logout) or ended the session; distinct = "
         "distinct case lines")
 
@@ -60,33 +66,42 @@ SOH = "\x01"
 
 
 # ------------------------------------------------------------------------------------ build
-def _probe_line():
-    m = rawmsg([(35, "0"), (49, "SRV"), (56, "CLI"), (52, S.ts(S.T0))])
-    return "START I none asa=0|IN " + m.hex()
+def _probe_lines():
+    t = S.ts(S.T0)
+    no34 = rawmsg([(35, "0"), (49, "SRV"), (56, "CLI"), (52, t)])
+    unk = rawmsg([(35, "ZZ"), (49, "SRV"), (56, "CLI"), (34, 1), (52, t)])
+    return ["START I none asa=0|IN " + no34.hex(), "START I none asa=0|IN " + unk.hex()]
+
+
+def _reject_fileline(out):
+    """FILE_LINE at the end of the text of the Reject in a trace."""
+    fl = None
+    for mm in re.finditer(r"OUT ([0-9a-f]+)", out or ""):
+        txt = bytes.fromhex(mm.group(1)).decode("latin-1")
+        k = txt.rfind(" at: ")
+        if "35=3" + SOH in txt and k >= 0:
+            fl = txt[k + 5:txt.rfind(SOH + "10=")]
+    return fl
 
 
 def build(tier):
+    from vlib import codecgen
     built = S.build_sess()
     exe = built["impl"][0]
-    flf = exe + ".c19fl"
-    if not os.path.exists(flf):
-        # the text of the InvalidMessage thrown by Session::process carries __FILE__:__LINE__ of the tree under
-        # test: take it from the real code (the Reject that answers a message without "34=")
-        out = core.run_lines(built["impl"], [_probe_line()], per_case_timeout=60)[0]
-        fl = None
-        for mm in re.finditer(r"OUT ([0-9a-f]+)", out or ""):
-            txt = bytes.fromhex(mm.group(1)).decode("latin-1")
-            k = txt.find(" at: ")
-            if "35=3" + SOH in txt and k >= 0:
-                fl = txt[k + 5:txt.rfind(SOH + "10=")]
-        if fl is None:
-            # (a tree in which process no longer rejects such a message: the model then carries an empty text and the
-            #  correspondence run shows the difference)
-            fl = ""
-        tmp = flf + ".tmp%d" % os.getpid()
-        open(tmp, "w").write(fl)
-        os.rename(tmp, flf)
-    built["driver_args"] = built["driver_args"] + [flf]
+    flf, flt = exe + ".c19fl", exe + ".c19flt"
+    if not (os.path.exists(flf) and os.path.exists(flt)):
+        # the texts of the InvalidMessage thrown by Session::process (no "34=") and by Message::factory (unknown
+        # message type) carry __FILE__:__LINE__ of the tree under test: take them from the real code (the Rejects
+        # that answer such messages).  A tree that no longer rejects them leaves the text empty and the
+        # correspondence run shows the difference.
+        outs = core.run_lines(built["impl"], _probe_lines(), per_case_timeout=60)
+        for path, out in ((flf, outs[0]), (flt, outs[1])):
+            tmp = path + ".tmp%d" % os.getpid()
+            open(tmp, "w").write(_reject_fileline(out) or "")
+            os.rename(tmp, path)
+    # the Codec group's metadata dump of the same schema (the model's decoder = coq/Codec's Message::factory)
+    cmeta = codecgen.build_codec(("utest",))["driver_args"][0].split("=", 1)[1]
+    built["driver_args"] = built["driver_args"] + [flf, cmeta, flt]
     return built
 
 
@@ -191,8 +206,9 @@ def probe(g, kind=None):
     rng = g.rng
     E = g.exp
     alive = g.st in ("cont", "resend", "test")
-    kinds = ["ok"] * 6 + ["high"] * 4 + ["low"] * 2 + ["lowpd"] * 4 + ["eqpd", "comp", "comp", "chk", "chk", "missb",
-             "missh", "no34", "v34", "v34", "v34", "v34", "v34after", "seqreset", "reject", "logout", "logon", "two"]
+    kinds = ["ok"] * 14 + ["high"] * 4 + ["low"] * 2 + ["lowpd"] * 4 + ["eqpd", "comp", "comp", "chk", "chk", "missb",
+             "missh", "no34", "v34", "v34", "v34", "v34", "v34after", "seqreset", "reject", "logout", "logon", "two",
+             "dup", "dup", "unkmt", "shuffle", "shuffle"]
     k = kind or rng.choice(kinds)
     t = rng.choice(ANY if rng.random() < 0.5 else APP)
     now = g.now
@@ -329,6 +345,36 @@ def probe(g, kind=None):
         else:
             g.feed(g.msg("A", rng.choice([E, E, E + 1, max(1, E - 1)])))
             processed()
+    elif k == "dup":
+        # a tag twice: DuplicateField (decode failure); also a second MsgSeqNum
+        which = rng.randrange(4)
+        seq = rng.choice([E, E, E + 2, max(1, E - 1)])
+        if which == 0:
+            g.feed(g.msg(t, seq, post=[(34, rng.choice([E, E + 3]))]))
+        elif which == 1:
+            g.feed(g.msg(t, seq, pre=[(49, g.peer)]))
+        elif which == 2:
+            g.feed(g.msg(t, seq, post=[(rng.choice([50, 57]), "a"), (50, "b"), (57, "c")]))
+        else:
+            b = [kv for kv in S.app_fields(rng, "D", now) if kv[0] != 58]
+            g.feed(g.msg("D", seq, body=b + [(58, "x"), (58, "y")]))
+        g.exp += 1
+    elif k == "unkmt":
+        g.feed(g.msg(rng.choice(["ZZ", "z", "U1"]), rng.choice([E, E + 1]), body=[(58, "x")]))
+        g.exp += 1
+    elif k == "shuffle":
+        # the same in-sequence message with header and body fields in another (legal) order
+        tt = rng.choice(APP)
+        hdr = [(49, g.peer), (56, g.me), (34, E), (52, S.ts(now))]
+        if rng.random() < 0.4:
+            hdr += [(50, "sub"), (57, "tsub")]
+        body = list(g.body(tt))
+        rng.shuffle(hdr)
+        rng.shuffle(body)
+        g.feed(rawmsg([(35, tt)] + hdr + body))
+        processed()
+        if g.st == "test":
+            g.st = "cont"
     elif k == "two":
         a = g.msg(rng.choice(APP), rng.choice([E, E, max(1, E - 1), E + 2]))
         b = g.msg(rng.choice(APP), E + 1, bad_chk=rng.random() < 0.3)
@@ -406,7 +452,7 @@ def history(rng, role=None, persist=None, nprobes=None, force=None, **over):
         elif x < 0.13:
             g.send(g.app_spec())
         elif x < 0.145:
-            g.ops.append("STOP")            # (PEERCLOSE is asynchronous in the shared harness: not used)
+            g.ops.append(rng.choice(["STOP", "PEERCLOSE"]))
             g.st = "dead"
         elif x < 0.16 and persist == "file":
             g.restart()
@@ -422,7 +468,7 @@ def gen_cases(rng, tier):
     thorough = tier == "thorough"
     # 1. systematic: every probe kind as the last operation after a short prefix, in every state the prefix reaches
     kinds = ["ok", "high", "low", "lowpd", "eqpd", "comp", "chk", "missb", "missh", "no34", "v34", "v34after", "seqreset",
-             "reject", "logout", "logon", "two"]
+             "reject", "logout", "logon", "two", "dup", "unkmt", "shuffle"]
     reps = 6 if thorough else 2
     for kind in kinds:
         for role in "IA":
@@ -446,7 +492,7 @@ def gen_cases(rng, tier):
                         probe(g, "ok")
                     cs.append(Case(g.line(), "sys-%s" % kind))
     # 2. random histories
-    n_rand = 6000 if thorough else 1100
+    n_rand = 7000 if thorough else 1500
     for _ in range(n_rand):
         cs.append(Case(history(rng), "random"))
     return cs
@@ -575,6 +621,8 @@ def _decodable(raw, toks):
     if toks[2][1] not in body:
         return False
     tags = set(k for k, _ in toks)
+    if len(tags) != len(toks):
+        return False
     if not all(t in tags for t in hdr) or not all(t in tags for t in body[toks[2][1]]):
         return False
     return (raw[-7:-4] == b"10=" and raw[-1:] == b"\x01" and raw[-4:-1].isdigit() and
@@ -584,10 +632,15 @@ def _decodable(raw, toks):
 KNOWN_KINDS = ("raw34", "reject_unchecked", "high_not_continuous", "no_logout")
 
 
-def explain(line, trace):
+def explain(line, trace, cats=None):
     """Independent re-statement of the oracle's clauses (first message of every IN operation) for CLASSIFYING
-    failures: the list of kinds of the failing messages.  `other` = a failure no listed finding explains."""
+    failures: the list of kinds of the failing messages.  `other` = a failure no listed finding explains.
+    cats (a dict) receives the number of judged messages per clause and session state."""
     kinds = []
+
+    def note(c):
+        if cats is not None:
+            cats[c] = cats.get(c, 0) + 1
     ops = line.split("|")
     steps = _steps(trace)
     if len(ops) != len(steps):
@@ -626,6 +679,7 @@ def explain(line, trace):
                 st = prev["state"]
                 E = prev["recv"]
                 if not _decodable(raw, toks):
+                    note("undecodable:%s" % ("no34" if b"34=" not in raw else "rejected"))
                     if dl or not has(b"3"):
                         kinds.append("other")
                 elif F is not None and F.isdigit():
@@ -650,6 +704,24 @@ def explain(line, trace):
                             not (_get(toks, 56) == ids[0] and _get(toks, 49) == ids[1]))
                     stop_ok = (not dl) and (par["sd"] or has(b"5")) and ret == 0
                     fail = None
+                    if cats is not None:
+                        where = "logon" if at_logon else "st%d" % st
+                        if not judged:
+                            note("not-judged")
+                        elif comp:
+                            note("compid:" + where)
+                        elif ty == b"4":
+                            note("seqreset")
+                        elif F > E:
+                            note("high:" + where)
+                        elif F < E:
+                            note(("low-nodup:" if not pd else "dup-late:" if late else "dup-ok:") + where)
+                        else:
+                            note("equal:" + where)
+                        if dl:
+                            note("DELIVERED")
+                        if _raw_seq(raw) != F:
+                            note("raw34-differs")
                     if judged:
                         if comp:
                             fail = None if stop_ok else "stop"
@@ -703,6 +775,16 @@ CLASSIFIERS = {
     # an inbound session-level Reject is not passed through enforce at all
     "reject_not_enforced": _classifier("reject_unchecked"),
 }
+
+
+def extra_evidence(ctx):
+    cats = {}
+    for c, r in zip(ctx["cases"], ctx["impl"]):
+        try:
+            explain(c.line, r, cats)
+        except Exception:
+            cats["unparsed"] = cats.get("unparsed", 0) + 1
+    return {"judged_messages": dict(sorted(cats.items()))}
 
 
 def nontrivial(case, impl_out):
